@@ -175,6 +175,9 @@ type hdrVariant struct {
 	id      bool
 	from    string // "" absent
 	to      string
+	// foreign: version and id are only present as attributes of another
+	// namespace (x:version, x:id): the header declares neither
+	foreign bool
 }
 
 const streamNS = "http://etherx.jabber.org/streams"
@@ -201,11 +204,15 @@ func (h hdrVariant) render(closeIt bool) string {
 		}
 		fmt.Fprintf(&b, ` xmlns:stream='%s'`, h.streamP)
 	}
-	if h.version != "-" {
-		fmt.Fprintf(&b, ` version='%s'`, h.version)
-	}
-	if h.id {
-		b.WriteString(` id='s1'`)
+	if h.foreign {
+		fmt.Fprintf(&b, ` xmlns:x='urn:x' x:version='1.0' x:id='s1' x:lang='de'`)
+	} else {
+		if h.version != "-" {
+			fmt.Fprintf(&b, ` version='%s'`, h.version)
+		}
+		if h.id {
+			b.WriteString(` id='s1'`)
+		}
 	}
 	if h.from != "" {
 		fmt.Fprintf(&b, ` from='%s'`, h.from)
@@ -234,6 +241,9 @@ func acceptBody(c *nd.Ctx) nd.Result {
 	h.xmlns = hdrXMLNS[c.Choose(len(hdrXMLNS), "xmlns")]
 	h.version = hdrVersions[c.Choose(len(hdrVersions), "version")]
 	h.id = c.Choose(2, "id") == 0
+	if h.version == "1.0" && h.id {
+		h.foreign = c.Choose(2, "version-and-id-only-as-attributes-of-another-namespace") == 1
+	}
 	// addresses: 0 matching, 1 absent, 2 unparsable
 	addr := c.Choose(3, "addresses")
 	origin := jid.MustParse("me@example.com/res")
@@ -262,7 +272,7 @@ func acceptBody(c *nd.Ctx) nd.Result {
 		okName = h.name == "stream:stream" && h.streamP == streamNS
 	}
 	okNS := ws || h.xmlns == stanza.NSClient || h.xmlns == stanza.NSServer
-	mayAccept := okName && okNS && h.version == "1.0" && (recv || h.id) && addr != 2
+	mayAccept := okName && okNS && h.version == "1.0" && (recv || h.id) && addr != 2 && !h.foreign
 	mustAccept := mayAccept && addr == 0 && (ws || h.xmlns == stanza.NSClient)
 
 	var s *xmpp.Session
